@@ -66,7 +66,11 @@ def write(mod, total, tier, seed, wall, build_status, nshards):
         'wall_s': round(float(wall), 3),
         'violations': int(total.n_violations),
     }
-    path = os.path.join(env.VERIF, 'evidence', f'{pid}.json')
+    if env.REPO == os.path.realpath('/repo'):
+        path = os.path.join(env.VERIF, 'evidence', f'{pid}.json')
+    else:
+        # a run against a scratch copy (VERIF_REPO=...) must not overwrite the evidence of the real tree
+        path = os.path.join(env.scratch(), 'evidence_scratch', f'{pid}.json')
     os.makedirs(os.path.dirname(path), exist_ok=True)
     tmp = path + '.tmp'
     with open(tmp, 'w') as fh:
